@@ -8,6 +8,19 @@ VERIF = os.path.dirname(os.path.dirname(os.path.abspath(__file__)))
 ALL = [f"C{i:02d}" for i in range(1, 21)]
 
 CHECKS = {
+    "C18": dict(
+        category="exploration",
+        technique="bounded-exhaustive enumeration of the full settings product x channel on look-alike directory trees against a reference file scanner",
+        text=("Exhaustive enumeration of the full product source_dirs(8) x excl_paths(7) x incl_suffixes(4) x "
+              "excl_suffixes(3) x {command line, configuration file} on directory trees containing every look-alike "
+              "(upper/lower-case suffixes, .f9, .f90.bak, backup~, a directory named like a source file, hidden and empty "
+              "directories, nested exclusion targets); the real initialize runs on each and the set of indexed files must "
+              "equal the set computed by refscan from the property text, and workspace/symbol must list exactly the "
+              "modules of those files."),
+        note=("Trusted: refscan (stdlib glob/os.walk, 30 lines in vf/checks/c18.py). Where the statement does not fix "
+              "whether wildcards match hidden entries both readings are accepted. Three fixed trees (one in quick)."),
+        design="DESIGN.md §4 C18",
+    ),
     "C17": dict(
         category="exploration",
         technique="bounded-exhaustive enumeration of payload x injection site x path on the real server under an interpreter audit-hook monitor and a file-system oracle",
